@@ -96,8 +96,17 @@ func (b *Bounds) Within(poly Polygonal) WithinStatus {
 	return Inside
 }
 
-// Len returns the number of points in the receiver (always==5).
-func (b *Bounds) Len() int { return 4 }
+// Len returns the number of points in the receiver: its four corners, or
+// none if the receiver is empty (the box NewBounds returns, or the bounds of
+// a geometry without points, has no corners: as a member of a collection it
+// used to contribute four points at infinity of which the collection's own
+// Bounds knew nothing).
+func (b *Bounds) Len() int {
+	if b.Empty() {
+		return 0
+	}
+	return 4
+}
 
 // Points returns an iterator for the corners of the receiver.
 func (b *Bounds) Points() func() Point {
